@@ -152,14 +152,19 @@ class FinWalker(kwalk.Walker):
                 pass
         if k == "binop":
             op = rv["op"]
-            if op == "AddWithOverflow":
-                # unsigned x + k (k >= 1), after the overflow assert, is non-zero
+            if op in ("AddWithOverflow", "Add"):
+                # unsigned x + k (k >= 1) is non-zero: after the overflow assert in a debug build; in a build
+                # without overflow checks (plain `Add`) under the assumption that a usize element counter of an
+                # in-memory collection never wraps (no collection holds usize::MAX elements)
                 bt = body.ty(rv["a"]["t"])["s"] if "t" in rv["a"] else ""
                 bc = rv["b"]
-                if bt in ("usize", "u32", "u64", "u16", "u8") and bc.get("k") == "const" and isinstance(bc.get("v"), int) and bc["v"] >= 1:
+                if (bt in ("usize", "u32", "u64", "u16", "u8") if op == "AddWithOverflow" else bt == "usize") \
+                        and bc.get("k") == "const" and isinstance(bc.get("v"), int) and bc["v"] >= 1:
                     dst = self.norm(env, dst_place)
                     env.kill(dst)
-                    env[dst + ".0"] = NZ
+                    env[dst + (".0" if op == "AddWithOverflow" else "")] = NZ
+                    if op == "Add":
+                        self.ctx.used_nowrap = True
                     return
             if op == "Eq":
                 a = self.val(env, rv["a"])
@@ -277,6 +282,7 @@ class Ctx:
         self.changed = False
         self.cur = None
         self.boundary = set()
+        self.used_nowrap = False
         self._prov = {}
 
     def prov_of(self, fn):
@@ -609,6 +615,9 @@ def rule_r1(F, rep):
     rep.trust("axiom: float::frexp mantissa is finite (" + AXIOMS["rsjsonnet_lang::float::frexp"][".0"] + ")")
     rep.assume("public constructors taking an f64 straight from the embedding application are the library boundary "
                "and not checked: %s" % sorted(ctx.boundary))
+    if ctx.used_nowrap:
+        rep.assume("overflow checks are off in this build configuration: `index + 1` on a usize element counter is taken "
+                   "to be non-zero (no in-memory collection holds usize::MAX elements)")
     return ctx
 
 
